@@ -97,6 +97,8 @@ class Term:
         self.cvis = 1
         self.pending = 0
         self.undef = 0
+        self.rows = 1 << 30      # rows available from the origin; LF on the last one scrolls
+        self.scrolled = 0        # number of scrolls so far
         self.maxrow = 0          # largest row the cursor visited / wrote (oracle only)
         self.written = set()     # rows in which a cell was written (oracle only)
         self.layers = []
@@ -155,13 +157,16 @@ class Term:
             self.cx = 0
             self.pending = 0
         elif k == 3:
-            self.cy += 1
+            if self.cy == self.rows - 1:
+                self.scroll_up()
+            else:
+                self.cy += 1
             self.pending = 0
         elif k == 4:
             self.cy = self.cy - tok[1]      # rows above the origin exist (scrollback)
             self.pending = 0
         elif k == 5:
-            self.cy += tok[1]
+            self.cy = min(self.rows - 1, self.cy + tok[1]) if self.cy <= self.rows - 1 else self.cy + tok[1]
             self.pending = 0
         elif k == 6:
             self.cx = min(self.W - 1, self.cx + tok[1])
@@ -209,6 +214,22 @@ class Term:
 
     get = cell
 
+    def scroll_up(self):
+        """LF on the last row: every row up to the last moves up by one (rows above
+        the origin exist: scrollback), the last row becomes blank in the current pen."""
+        b = self.rows - 1
+        new = {}
+        for (y, x), v in self.grid.items():
+            if y <= b:
+                new[(y - 1, x)] = v
+            else:
+                new[(y, x)] = v
+        self.layers = [((yb - 1) if yb < b else yb, pen) for (yb, pen) in self.layers]
+        for x in range(self.W):
+            new[(b, x)] = ([32], self.pen, 0)
+        self.grid = new
+        self.scrolled += 1
+
     def shift_origin(self, dy):
         """the row `dy` becomes row 0 (after a done render / reset)"""
         self.grid = {(y - dy, x): v for (y, x), v in self.grid.items()}
@@ -221,4 +242,4 @@ class Term:
         rows = []
         for y in range(nrows):
             rows.append([[list(self.cell(y, x)[0]), self.cell(y, x)[1], self.cell(y, x)[2]] for x in range(self.W)])
-        return [self.cx, self.cy, self.pen, self.aw, self.cvis, self.pending, self.undef, rows]
+        return [self.cx, self.cy, self.pen, self.aw, self.cvis, self.pending, self.undef, self.scrolled, rows]
